@@ -12,6 +12,7 @@ from ..ref import quat as rq
 PROP = "C09"
 LEVEL = "exploration"
 SHARDS = {"quick": 2, "thorough": 16}
+THOROUGH_DEPTH = 20      # thorough tier = this many times the base thorough budget (VERIF_DEPTH overrides)
 ROUTES = ["Quaternion.normalize", "Quaternion.product", "Quaternion.__mul__", "Quaternion.__matmul__", "Quaternion.__mul__(Quaternion)",
           "orientation.q_prod", "Quaternion.conjugate", "Quaternion.inverse", "Quaternion.inv", "Quaternion.mult_L",
           "Quaternion.mult_R", "orientation.q_mult_L", "orientation.q_mult_R", "orientation.q_conj",
